@@ -54,11 +54,13 @@ func main() {
 		os.Exit(2)
 	}
 	prop := os.Args[1]
-	deprecation.Noticer = io.Discard
 	if prop == "C12ONE" {
+		// the concurrent child is a program that configures nothing about the library (its notices go to the standard
+		// error stream, next to the race detector's reports)
 		cmdC12One(os.Args[2], os.Args[3])
 		return
 	}
+	deprecation.Noticer = io.Discard
 	if prop == "OP" {
 		// one operation on a freshly parsed configuration in a process of its own: harness OP <yaml file> <operation>
 		doc, err := os.ReadFile(os.Args[2])
